@@ -720,7 +720,7 @@ def Engine.handlePubrec (e : Engine) (a : Ack) : Engine × Res :=
           if p.qos = 2 then
             if a.reasonCode ≥ 128 then
               -- the PUBREL of this operation is being written: completing it now would pull the packet from under the encoder
-              if e.current == some opId then (e, .err "ProtocolError")
+              if e.current == some opId || e.highQ.contains opId then (e, .err "ProtocolError")
               else e.completeSuccess opId (some (.pubrec a.packetId a.reasonCode))
             else
               let e1 := e.setOp { o with pubrel := some (.pubrel { packetId := a.packetId }) }
@@ -754,7 +754,7 @@ def Engine.handlePubcomp (e : Engine) (a : Ack) : Engine × Res :=
           if p.qos = 2 then
             if o.pubrel.isSome then
               -- a PUBCOMP before the PUBREL has been completely sent
-              if e.current == some opId then (e, .err "ProtocolError")
+              if e.current == some opId || e.highQ.contains opId then (e, .err "ProtocolError")
               else e.completeSuccess opId (some (.pubcomp a.packetId a.reasonCode))
             else (e, .err "ProtocolError")
           else (e, .err "ProtocolError")
@@ -872,9 +872,17 @@ def Engine.dequeue (e : Engine) (all : Bool) : Engine × Option Nat :=
           | id :: r => if e.passesReceiveMaximum id then ({ e with userQ := r }, some id) else (e, none)
           | [] => (e, none)
 
+def isQos0Publish : Packet → Bool
+  | .publish p => p.qos == 0
+  | _ => false
+
+/-- `get_operation_timeout_duration`: the user's ack timeout, for operations that wait for an acknowledgement -/
+def Op.ackTimeout (o : Op) : Option Nat :=
+  if isQos0Publish o.packet then none else o.user.bind (·.2)
+
 /-- `start_operation_ack_timeout` -/
 def Engine.startAckTimeout (e : Engine) (id : Nat) : Engine :=
-  match (e.op? id).bind (fun o => o.user.bind (·.2)) with
+  match (e.op? id).bind Op.ackTimeout with
   | some t => { e with timeouts := e.timeouts ++ [(id, e.now + t)] }
   | none => e
 
